@@ -47,9 +47,9 @@ func (c tierCfg) alphabet() []op {
 }
 
 func cfgFor(run *fw.Run) tierCfg {
-	c := tierCfg{Depth: 5, MaxNonNull: 1, Inits: []string{"A", "AB", "AC", "ABC", "MN"}, NoCache: []bool{false}}
+	c := tierCfg{Depth: 5, MaxNonNull: 1, Inits: []string{"A", "AB", "AC", "ABC", "MN", "HG"}, NoCache: []bool{false}}
 	if run.Thorough() {
-		c = tierCfg{Depth: 6, MaxNonNull: 2, Inits: []string{"", "A", "C", "AB", "AC", "ABC", "MN"}, NoCache: []bool{false, true}, Full: true}
+		c = tierCfg{Depth: 6, MaxNonNull: 2, Inits: []string{"", "A", "C", "AB", "AC", "ABC", "MN", "HG"}, NoCache: []bool{false, true}, Full: true}
 	}
 	if os.Getenv("C09_FULL") == "1" {
 		c.Full = true
@@ -83,13 +83,14 @@ const recSize = 4 + 3*maxOps
 
 func encodeHistory(h history) []byte {
 	b := make([]byte, recSize)
-	b[0] = byte(len(h.Init.Mods))
 	for i := 0; i < len(h.Init.Mods); i++ {
-		b[0] |= 1 << (2 + modIndex(h.Init.Mods[i]))
+		b[3] |= 1 << modIndex(h.Init.Mods[i])
 	}
-	b[0] &^= 3
 	if h.Init.NoCache {
-		b[1] = 1
+		b[1] |= 1
+	}
+	if h.Init.HostVia {
+		b[1] |= 2
 	}
 	b[2] = byte(len(h.Ops))
 	for i, o := range h.Ops {
@@ -101,11 +102,12 @@ func encodeHistory(h history) []byte {
 func decodeHistory(b []byte) history {
 	var h history
 	for x := 0; x < nMods; x++ {
-		if b[0]&(1<<(2+x)) != 0 {
+		if b[3]&(1<<x) != 0 {
 			h.Init.Mods += modNames[x]
 		}
 	}
-	h.Init.NoCache = b[1] == 1
+	h.Init.NoCache = b[1]&1 != 0
+	h.Init.HostVia = b[1]&2 != 0
 	for i := 0; i < int(b[2]); i++ {
 		h.Ops = append(h.Ops, op{K: opKind(b[4+3*i]), X: int(b[5+3*i]), A: int(b[6+3*i])})
 	}
@@ -397,7 +399,7 @@ func (e *explorer) report(h history, eng int, r *caseResult) {
 func hasLifetimeOp(h history) bool {
 	for _, o := range h.Ops {
 		switch o.K {
-		case kCloseInst, kCloseComp, kCloseCache, kCloseRt, kDrop, kGC, kReenter, kFailInst, kCloseFiller, kGrowGuest, kGrowHost:
+		case kCloseInst, kCloseComp, kCloseCache, kCloseRt, kDrop, kGC, kReenter, kFailInst, kCloseFiller, kGrowGuest, kGrowHost, kHostReenter:
 			return true
 		}
 	}
@@ -413,6 +415,9 @@ func (e *explorer) explore() {
 	for _, nc := range e.cfg.NoCache {
 		for _, m := range e.cfg.Inits {
 			layer = append(layer, history{Init: initial{Mods: m, NoCache: nc}})
+			if m == "HG" {
+				layer = append(layer, history{Init: initial{Mods: m, NoCache: nc, HostVia: true}})
+			}
 		}
 	}
 	for depth := 0; depth <= e.cfg.Depth; depth++ {
@@ -512,6 +517,15 @@ func (e *explorer) explore() {
 				if !n.s.enabled(o) {
 					continue
 				}
+				if !e.cfg.Full && n.s.Inst[mH] != instNone {
+					// quick, host-module graph HG: lifecycle of the host module H, cache/runtime close, collections
+					switch {
+					case o.K == kFresh, o.K == kCloseFiller:
+						continue
+					case (o.K == kCloseInst || o.K == kCloseComp || o.K == kDrop) && o.X == mG:
+						continue
+					}
+				}
 				if !e.cfg.Full && n.s.Inst[mM] != instNone {
 					// quick, shared-memory graph MN: lifecycle of the owner M, cache/runtime close, collections, growth, writes
 					switch {
@@ -537,7 +551,7 @@ func (e *explorer) explore() {
 // name the content of A.tab[0]; verdicts always come from the comparison with the twin.
 func calibrate() {
 	for k := 0; k < nFailKinds; k++ {
-		w := newWorld(false, 1, false, [nMods]bool{true}, 0)
+		w := newWorld(false, 1, false, [nMods]bool{true}, 0, false)
 		if r := w.do(op{K: kInst, X: mA}); r != "ok" {
 			fw.Fatalf("calibration: instantiate A: %s", r)
 		}
